@@ -28,20 +28,25 @@ sys.exit(2 if bad else 0)
 PY
 [ $? -ne 0 ] && fail=1
 # concurrency engine
-$VERIF/bin/instrument /repo $D/src $VERIF/conc/rt $VERIF/conc/harness >/dev/null || exit 2
+(cd $VERIF/conc/instrument && go build -o $VERIF/bin/instrument .) || exit 2
+$VERIF/bin/instrument "${VERIF_REPO:-/repo}" $D/src $VERIF/conc/rt $VERIF/conc/harness >/dev/null || exit 2
 (cd $D/src && go build -o $D/concrun ./zz_sim/concrun && go build -race -o $D/concrun-race ./zz_sim/concrun) || exit 2
 for G in 1 4 16; do
   GOMAXPROCS=$G $D/concrun -from 7000 -to 8000 -out $D/cp$G.json -hashes &
   GOMAXPROCS=$G $D/concrun-race -from 7000 -to 8000 -out $D/cr$G.json -hashes &
+  GOMAXPROCS=$G $D/concrun -mode parse -from 9000 -to 9400 -out $D/pp$G.json -hashes &
+  GOMAXPROCS=$G $D/concrun-race -mode parse -from 9000 -to 9400 -out $D/pr$G.json -hashes &
 done
 wait
 python3 - "$D" <<'PY'
 import json,sys,glob,os
-d=sys.argv[1]; bad=0; n=0; ref=None
-for f in sorted(glob.glob(os.path.join(d,"c[pr]*.json"))):
-    h=json.load(open(f))["hashes"]; n+=len(h)
-    if ref is None: ref=h
-    elif h!=ref: bad+=sum(1 for k in ref if ref[k]!=h.get(k)); print("DIVERGENCE", f)
+d=sys.argv[1]; bad=0; n=0
+for pat in ("c[pr]*.json", "p[pr]*.json"):
+    ref=None
+    for f in sorted(glob.glob(os.path.join(d,pat))):
+        h=json.load(open(f))["hashes"]; n+=len(h)
+        if ref is None: ref=h
+        elif h!=ref: bad+=sum(1 for k in ref if ref[k]!=h.get(k)); print("DIVERGENCE", f)
 print(f"concurrency engine: {n} schedule hashes compared (plain and -race, GOMAXPROCS 1/4/16), {bad} divergences")
 sys.exit(2 if bad else 0)
 PY
